@@ -33,8 +33,8 @@ META = {
         "design_ref": "DESIGN.md §4 C06",
     },
     "C15": {
-        "text": "Theorems on the pool model, for every N, d, t0: N >= 1 tasks that each sleep d, submitted to a pool with room for N workers, are all started in the first scheduling pass - each on its own worker, in order - and every one is parked with the wake-up time t0 + d, nothing stays queued and the clock has not moved (C15_n_sleepers_one_d, by induction over the queue with the loop-iteration lemma; C15_sleeps_overlap is the general invariant form); a blocking worker hands over to a fresh worker before control returns to the loop (C15_blocked_worker_hands_over); every worker whose time has come is woken in that same pass (C15_due_all_woken). Tie: a real, unstarted EventLoop driven turn by turn with a virtual clock, tasks blocking in the real hooked nanosleep; the finishing time of every task (rounds when N exceeds the pool size, 10 ms slices, computing tasks in between) is compared exactly with the model.",
-        "note": "Trusted: Lean kernel; hand-written pool model; the verif_loop hook; virtual clock. Partial: wall-clock behaviour of the running loop thread (jitter, epoll timeouts) is not in the model; the completion half of the scenario (all N results at t0 + d) is evaluated on instances, the general theorem covers start and wake-up times.",
+        "text": "Theorems on the pool model, for every N, d, t0: N >= 1 tasks that each sleep d, submitted to a pool with room for N workers, are all started in the first scheduling pass - each on its own worker, in order - and every one is parked with the wake-up time t0 + d, nothing stays queued and the clock has not moved (C15_n_sleepers_one_d, by induction over the queue with the loop-iteration lemma; C15_sleeps_overlap is the general invariant form), and after the pass at t0 + d every one of the N tasks has published its own value and no worker is left (C15_n_sleepers_done); a blocking worker hands over to a fresh worker before control returns to the loop (C15_blocked_worker_hands_over); every worker whose time has come is woken in that same pass (C15_due_all_woken). Tie: a real, unstarted EventLoop driven turn by turn with a virtual clock, tasks blocking in the real hooked nanosleep; the finishing time of every task (rounds when N exceeds the pool size, 10 ms slices, computing tasks in between) is compared exactly with the model.",
+        "note": "Trusted: Lean kernel; hand-written pool model; the verif_loop hook; virtual clock. Partial: wall-clock behaviour of the running loop thread (jitter, epoll timeouts) is not in the model; tasks taken by another loop of the process are the C02 known finding.",
         "design_ref": "DESIGN.md I.3 / §4 C15",
     },
     "C16": {
